@@ -70,8 +70,10 @@ theorem include_equiv (P : Prims) (O : OutPrims) (cfg : Cfg) (fs : FS)
     renderFileWith P O cfg fs inner line f env = .ret (.done, out) := by
   simp only [renderFileWith, h, hc, hr]
 
-/-- the include depth is bounded by the fuel: with fuel `n+1` an include chain of depth `≤ n` is
-    rendered by the real handler at every level (the `unmodelled` leaf of `incFuel 0` is not reached) -/
+/-- the fuel is the number of include levels left (`maxIncludeDepth - depth` of the Go code): with `n+1` levels
+    left the file is rendered with `n` levels left inside — including at fuel `n+1` is rendering the file at
+    fuel `n` (`include_denotation_mk`, `include_source`); with none left the handler is the depth error
+    (`include_depth_error`, Proofs/C14Depth.lean) -/
 theorem incFuel_succ (P : Prims) (O : OutPrims) (cfg : Cfg) (fs : FS) (n : Nat) :
     incFuel P O cfg fs (n + 1) = renderFileWith P O cfg fs (incFuel P O cfg fs n) := rfl
 
